@@ -1055,8 +1055,10 @@ def rule_reflect(ctx):
         allocs = [resolved(fi, o) for o in out_arrays]
         good = []
         for a_ in allocs:
-            if isinstance(a_, ast.Call) and (dotted_name(a_.func) or '').split('.')[-1] in ('zeros', 'empty', 'ones', 'zeros_like', 'empty_like'):
+            if isinstance(a_, ast.Call) and (dotted_name(a_.func) or '').split('.')[-1] in ('zeros', 'empty', 'ones', 'zeros_like', 'empty_like', '__zeros__'):
                 dt = next((k.value for k in a_.keywords if k.arg == 'dtype'), None)
+                if dt is None and len(a_.args) >= 2:
+                    dt = a_.args[1]         # zeros(shape, dtype) / __zeros__(shape, dtype): the dtype by position
                 if dt is not None and any(k in norm(dt) for k in ('result_type', 'promote_types')) and rn in [n.id for n in ast.walk(dt) if isinstance(n, ast.Name)] \
                         and any(x in norm(dt) for x in ('self.data', 'self')):
                     good.append(a_)
